@@ -94,6 +94,19 @@ def index_variants(depth=2):
     out.append(('expressions+condition',
                 models.Index(expressions()[2][1][0], name='ix_ec',
                              condition=q_leaves()[0][1])))
+    # every pair / the full set of optional attributes on one index (their
+    # order inside the stored dictionary must not matter)
+    opts = [('db_tablespace', 'ts1'), ('include', ['b']),
+            ('opclasses', ['varchar_pattern_ops']),
+            ('condition', q_leaves()[0][1])]
+    for i in range(len(opts)):
+        for j in range(i + 1, len(opts)):
+            kw = dict([opts[i], opts[j]])
+            out.append(('+'.join(sorted(kw)),
+                        models.Index(fields=['a'], name='ix_p%d%d' % (i, j),
+                                     **kw)))
+    out.append(('all-options', models.Index(fields=['a'], name='ix_all',
+                                            **dict(opts))))
     return out
 
 
@@ -125,6 +138,18 @@ def constraint_variants(depth=2):
     for n, ex in expressions()[:4]:
         out.append(('unique+expressions:' + n,
                     models.UniqueConstraint(*ex, name='uqe')))
+    copts = [('condition', q_leaves()[0][1]),
+             ('deferrable', Deferrable.DEFERRED), ('include', ['b']),
+             ('opclasses', ['varchar_pattern_ops'])]
+    for i in range(len(copts)):
+        for j in range(i + 1, len(copts)):
+            kw = dict([copts[i], copts[j]])
+            try:
+                c = models.UniqueConstraint(fields=['a'],
+                                            name='uqp%d%d' % (i, j), **kw)
+            except ValueError:
+                continue        # Django refuses the combination
+            out.append(('unique+' + '+'.join(sorted(kw)), c))
     return out
 
 
